@@ -1176,6 +1176,13 @@ class Evaluator:
         if not isand and len(vals) == 2 and isinstance(vals[1], DictV) and \
                 not vals[1].has_symbolic() and not vals[1].keys():
             return vals[0] if not (isinstance(vals[0], Const) and vals[0].v is None) else vals[1]
+        if len(vals) == 2 and not any(isinstance(v, (Cmp, BoolT)) or (isinstance(v, Const) and isinstance(v.v, bool))
+                                      for v in vals) and any(isinstance(v, (Obj, DictV, Tup)) for v in vals):
+            # value semantics: `a or b` is a when a is truthy, else b (`a and b`: b when a is truthy, else a)
+            c = truthy(vals[0])
+            if isinstance(c, Const):
+                return (vals[1] if c.v else vals[0]) if isand else (vals[0] if c.v else vals[1])
+            return mk_ite(c, vals[1], vals[0]) if isand else mk_ite(c, vals[0], vals[1])
         ts = [truthy(v) for v in vals]
         if all(isinstance(v, (Cmp, BoolT, Const)) for v in vals) or True:
             out = []
@@ -1648,6 +1655,9 @@ class Evaluator:
                 return mk_not(a[0]) if isinstance(a[0], (Cmp, BoolT, Const)) else BoolT('not', (a[0],))
             if short in ('logical_xor', 'logical_and', 'logical_or') and len(a) == 2:
                 return BoolT(short[8:], tuple(a))
+            if short in ('array', 'asarray', 'asanyarray') and a and _narrowing_dtype(kwargs.get('dtype')):
+                # a fixed-width string (or otherwise value-changing) dtype is a conversion, not an identity
+                return App(name, (a[0], Tup((Const('dtype'), kwargs['dtype']))))
             if short in ('array', 'asarray', 'asanyarray') and a:
                 if isinstance(a[0], Tup) and any(isinstance(i, (App, Obj)) for i in a[0].items):
                     return Tup(a[0].items, 'array')
@@ -1736,6 +1746,8 @@ class Evaluator:
             return d
         if name == 'dict' and not a and kwargs and '**' not in kwargs:
             return DictV([dict(kwargs)])
+        if name == 'len' and len(a) == 1 and isinstance(a[0], Const) and isinstance(a[0].v, (str, bytes, tuple, list)):
+            return sp.Integer(len(a[0].v))
         if name == 'len' and len(a) == 1:
             items = _iter_items(a[0])
             if items is not None:
@@ -1770,6 +1782,20 @@ class Evaluator:
                 return BoolT({'and_': 'and', 'or_': 'or', 'xor': 'xor'}[short], tuple(a))
         return App(name, tuple(a) + tuple(Tup((Const(k), v)) for k, v in sorted(
             kwargs.items(), key=lambda kv: kv[0])))
+
+
+def _narrowing_dtype(dt):
+    """dtype= values that can change the stored values: fixed-width strings, or a dtype computed at run time."""
+    import re as _re
+    if dt is None or (isinstance(dt, Const) and dt.v is None):
+        return False
+    if isinstance(dt, Const) and isinstance(dt.v, str):
+        return bool(_re.match(r'^[<>|=]?[USa]\d*$', dt.v))
+    if isinstance(dt, (ExtRef, ClassRef, FuncRef)):
+        return False
+    if isinstance(dt, App) and dt.name in ('fstring', 'fmt', 'binop:Add', 'str.format'):
+        return True
+    return False
 
 
 def _cls_names(t):
